@@ -344,8 +344,8 @@ MODEL_RUNS = {
     "thorough": [("MC_Switches_quick_combos.cfg", "one-switch-all-streams-ok-code", 5000),
                  ("MC_Switches_quick_pairs2.cfg", "two-switches-ansi-streams", 2000),
                  ("MC_Switches_thorough_pairs.cfg", "two-switches-all-bases", 50000),
-                 ("MC_Switches_thorough_raise.cfg", "two-switches-raising-handler", 10000),
-                 ("MC_Switches_thorough_triples.cfg", "three-switches", 200000)],
+                 ("MC_Switches_thorough_raise.cfg", "two-switches-raising-handler", 6000),
+                 ("MC_Switches_thorough_triples.cfg", "three-switches", 60000)],
 }
 
 
